@@ -28,10 +28,9 @@
    6 layout     backend/computegraph.py:to_func 372-387: idx = 0; for each DE: vshape > 1 -> (idx, idx+vshape),
                 idx += vshape; else idx, idx += 1.
 
-   NOT in this model (guards of C01_full, classified formally by the booleans below): the NAMES of the variables
-   of the generated in_edge operator and of the labels (`guard_names`, `guard_labels`): when they clash with user
-   names the real code raises or silently computes something else (D22 and relatives); the model computes values
-   as if all generated names were fresh. *)
+   The model computes values as if all generated names (variables of the in_edge operator, labels) were fresh.  Since
+   fixes D83 / D84 the code guarantees that (before them, `guard_names` / `guard_labels` delimited the networks in which
+   generated and user names did not clash; with the switches fixed_D22 / fixed_D22b on both guards are `true`). *)
 From Coq Require Import List String Ascii ZArith QArith Qcanon Bool Arith.
 From PV Require Import Expr Net.
 Import ListNotations.
@@ -232,11 +231,11 @@ Definition names_ok (n : net) (v : vid) : bool :=
   forallb (fun x => forallb (fun z => negb (is_vk_of z x) &&
                                       forallb (fun j => negb (String.eqb x (z ++ "_in" ++ digit_str j))) (seq 0 k)) B) B.
 (* MODEL SWITCHES for the two name-clash classes (read by c01.py as well): true = the repair is in the code
-   (/verif/fixes/proposed_fix_C01_D22.diff: generated in-edge names are made unique against the target name and one another;
-    /verif/fixes/proposed_fix_C01_D22b.diff: labels written into an operator's equations avoid the operator's variable names).
+   (fix D83, /verif/fixes/fix_D83.diff: generated in-edge names are made unique against the target name and one another;
+    fix D84, /verif/fixes/fix_D84.diff: labels written into an operator's equations avoid the operator's variable names).
    With a switch on, the corresponding guard holds of every network (the generated names are fresh, as the model assumes). *)
-Definition fixed_D22 : bool := false.
-Definition fixed_D22b : bool := false.
+Definition fixed_D22 : bool := true.
+Definition fixed_D22b : bool := true.
 Definition guard_names (n : net) : bool := fixed_D22 || forallb (fun e => names_ok n (etgt e)) (nedges n).
 
 (* An operator input `a` with >= 2 sources (same-node producers, plus the in_edge operator if any edge reaches it) is rewritten
